@@ -176,7 +176,7 @@ func run(c *h.Ctx, cs chain.Case) {
 			}
 		}
 	}
-	if !r.R[7] {
+	if !r.R[7] && !d.Allowed {
 		if how, ok := chain.FlakyAllowed(b, len(cs.Links), nil); ok {
 			c.Fail("C02/flaky-loader/widened-command-allowed", "ExecutionAllowed returned nil although the command is widened; %s\ninvocation cmd %q, link cmds %q\ncase: %+v", how, cs.Inv.Cmd, cmds(cs), cs)
 		}
